@@ -31,5 +31,21 @@ fn main() {
             }
         }
     }
+    // the facade clients and the tx3c compiler go through: Workspace::lower + Workspace::tir(name)
+    // must hand out, for every transaction, the IR that lowering produced for *that* transaction
+    let mut mismatch = Vec::new();
+    let mut ws = tx3_lang::Workspace::from_string(src.clone());
+    match ws.lower() {
+        Ok(()) => {
+            for (name, direct) in out.iter() {
+                let via = ws.tir(name).map(|t| serde_json::to_value(t).unwrap());
+                if via.as_ref() != Some(direct) {
+                    mismatch.push(name.clone());
+                }
+            }
+        }
+        Err(e) => mismatch.push(format!("workspace: {e:?}")),
+    }
+    out.insert("__facade_mismatch__".to_string(), serde_json::json!(mismatch));
     println!("{}", serde_json::to_string(&out).unwrap());
 }
